@@ -185,23 +185,23 @@ def verify_target(db, reg, key, timeout_ms=20000, want_smt2=False, findings=(), 
     ex.cur_target = c
     t_start = time.time()
     try:
-        params, types = param_types(fi, c)
-        variants = type_variants(types, params)
+        c_base = c
+        variants = []
+        for cv in (c_base.get('variants') or [{}]):
+            c_v = dict(c_base, **cv)
+            params, types = param_types(fi, c_v)
+            for tv in type_variants(types, params):
+                variants.append((c_v, tv))
         all_vcs = []
         normal_exits = 0
         exits = []
         pre_models = []
-        for vi, variant in enumerate(variants):
+        for vi, (c, variant) in enumerate(variants):
+            ex.cur_target = c
             st = State()
             st.fn = fi
             st.module = fi.module
             env = build_inputs(ex, st, fi, c, variant)
-            for p in params:
-                if isinstance(env[p], VObj):
-                    materialize(ex, st, env[p])
-                    for f, fv in list(st.heap[env[p].ref].items()):
-                        if isinstance(fv, VObj):
-                            materialize(ex, st, fv, 1)
             st.env = dict(env)
             spec = st.fork()
             spec.spec = True
